@@ -100,6 +100,17 @@ theorem V2_skel_cfg_reconcile (s : Sys) (t : Tgt) (c : Cfg) (env : Env) (hc : s.
       planTraceCfg c (c.applied == 0) (cfgReconcile s t env) :=
   skel_cfg_reconcile s t c env hc hok hne
 
+/-- reconcileConfiguration, first re-synchronisation request not accepted: the invocation ends with
+    the error (or nil for the superseded-master refusal) and writes nothing — it does not report the
+    configuration SYNCHRONIZED -/
+theorem V2_skel_cfg_reconcile_refused (s : Sys) (t : Tgt) (c : Cfg) (env : Env) (rel : Rel) (hc : s.cfg? t = some c)
+    (hp : env.persistent = false) (h1 : c.state = .synchronizing) (h2 : c.master ≠ 0) (h3 : c.applied ≠ 0)
+    (hr : s.rel? c.master = some rel) (hconn : rel.conn = true)
+    (hs : env.syncOk = 0) (hd : env.dev ≠ .ok) (hne : groupByIndex c.aview ≠ []) :
+    proj (v2sk_cfg_reconcile (gCfgOf c (s.rel? c.master) env true)) =
+      .write "conn.Set" :: planTraceCfg c false (cfgReconcile s t env) :=
+  skel_cfg_reconcile_refused s t c env rel hc hp h1 h2 h3 hr hconn hs hd hne
+
 /-- the mastership Reconcile -/
 theorem V2_skel_mast_reconcile (s : Sys) (t : Tgt) (env : Env) :
     proj (v2sk_mast_reconcile (gMastOf ((s.cfg? t).getD default) (s.cfg? t).isNone
